@@ -1318,6 +1318,17 @@ func c19LenSSA(r *Run) {
 					}
 					return false, true
 				case *ssa.Call:
+					// slices.Contains(table, Kind(v)) for a constant []reflect.Kind
+					if pkg, name := staticCalleeName(x); pkg == "slices" && name == "Contains" && len(x.Call.Args) == 2 {
+						if set, isTab := kindTableSet(p.resolve(x.Call.Args[0])); isTab {
+							if recv, _, isKind := reflectValueCall(p.resolve(x.Call.Args[1]), "Kind"); isKind {
+								if kk := lenKindOf(p, recv, param, c); kk >= 0 && kk < 64 {
+									return set&(1<<uint(kk)) != 0, true
+								}
+							}
+						}
+						return false, false
+					}
 					if recv, _, isV := reflectValueCall(x, "IsValid"); isV {
 						if kk := lenKindOf(p, recv, param, c); kk >= 0 {
 							return kk != kInvalid, true
